@@ -250,6 +250,30 @@ def extract_opnames(M):
     return out, d
 
 
+def prologue_check(ctx, rule):
+    M = ctx.model
+    assigns = M.module_assigns[EXPR]
+    compile_fi = M.method("Construct", "compile")
+    prologue = None
+    for node in ast.walk(compile_fi.node):
+        if isinstance(node, ast.Constant) and isinstance(node.value, str) and "linkedinstances" in node.value and "len_" in node.value:
+            prologue = node.value
+    binds = {}
+    if prologue:
+        import textwrap
+        try:
+            for st in ast.parse(textwrap.dedent(prologue)).body:
+                if isinstance(st, ast.Assign) and isinstance(st.targets[0], ast.Name) and isinstance(st.value, ast.Name):
+                    binds[st.targets[0].id] = st.value.id
+        except SyntaxError:
+            pass
+    for f in ("len", "sum", "min", "max", "abs"):
+        v = assigns.get(f + "_")
+        ok = isinstance(v, ast.Call) and isinstance(v.func, ast.Name) and v.func.id == "FuncPath" and len(v.args) == 1 and isinstance(v.args[0], ast.Name) and v.args[0].id == f
+        ctx.ob(rule, f + "_", ok, "%s_ is FuncPath(%s)" % (f, f), key="helper %s_" % f, loc=EXPR)
+        ctx.ob(rule, compile_fi, binds.get(f + "_") == f, "the compile() prologue binds %s_ to %s (found %s)" % (f, f, binds.get(f + "_")), key="prologue %s_" % f)
+
+
 def run(ctx):
     M = ctx.model
     opn, dnode = extract_opnames(M)
@@ -412,25 +436,7 @@ def run(ctx):
         v = assigns.get(name)
         ok = isinstance(v, ast.Call) and isinstance(v.func, ast.Name) and v.func.id == cls and len(v.args) == 1 and isinstance(v.args[0], ast.Constant) and v.args[0].value == name
         ctx.ob("C11.R5", name, ok, "%s is %s(%r): it renders as the name generated code binds" % (name, cls, name), key="root %s" % name, loc=EXPR)
-    compile_fi = M.method("Construct", "compile")
-    prologue = None
-    for node in ast.walk(compile_fi.node):
-        if isinstance(node, ast.Constant) and isinstance(node.value, str) and "linkedinstances" in node.value and "len_" in node.value:
-            prologue = node.value
-    binds = {}
-    if prologue:
-        import textwrap
-        try:
-            for st in ast.parse(textwrap.dedent(prologue)).body:
-                if isinstance(st, ast.Assign) and isinstance(st.targets[0], ast.Name) and isinstance(st.value, ast.Name):
-                    binds[st.targets[0].id] = st.value.id
-        except SyntaxError:
-            pass
-    for f in ("len", "sum", "min", "max", "abs"):
-        v = assigns.get(f + "_")
-        ok = isinstance(v, ast.Call) and isinstance(v.func, ast.Name) and v.func.id == "FuncPath" and len(v.args) == 1 and isinstance(v.args[0], ast.Name) and v.args[0].id == f
-        ctx.ob("C11.R5", f + "_", ok, "%s_ is FuncPath(%s)" % (f, f), key="helper %s_" % f, loc=EXPR)
-        ctx.ob("C11.R5", compile_fi, binds.get(f + "_") == f, "the compile() prologue binds %s_ to %s (found %s)" % (f, f, binds.get(f + "_")), key="prologue %s_" % f)
+    prologue_check(ctx, "C11.R5")
     fn = mk("func", func="len", operand=None)
     ctx.ob("C11.R5", M.method("FuncPath", "__repr__"), rnd.render(fn, "__repr__") == "len_" and rnd.render(leaves[-1][1], "__repr__").startswith("len_("), "FuncPath renders as <function name>_ and <function name>_(operand)", key="FuncPath name")
     fi, paths = own_method_paths(ctx, "RepeatUntil", "_emitparse")
